@@ -1594,7 +1594,16 @@ func ExistExpr(query *Query, current Map, expr *sqlparser.ExistsExpr, opts ...Ex
 	}
 	array, ok := rs.([]any)
 	if !ok {
-		return false, INVALID_TYPE.Extend(fmt.Sprintf("failed to build `EXIST` expression. expected an array but found %T", array))
+		// FROM dual yields its one row, or nothing
+		if q.dual {
+			array, ok = make([]any, 0, 1), true
+			if rs != nil {
+				array = append(array, rs)
+			}
+		}
+	}
+	if !ok {
+		return false, INVALID_TYPE.Extend(fmt.Sprintf("failed to build `EXIST` expression. expected an array but found %T", rs))
 	}
 	query.postProcessors = append(query.postProcessors, q.postProcessors...)
 	query.wg.Add(1)
@@ -2075,7 +2084,22 @@ func (query *Query) exec() (result any, err error) {
 	query.filtered = nil
 	query.aggregateResults = nil
 	if query.dual {
-		rs, err := ExecSelect(query, query.from)
+		// dual is a source of one row: WHERE keeps it or drops it
+		rows := make([]any, 0, len(query.from))
+		for _, current := range query.from {
+			if row, ok := current.(Map); ok {
+				isMatch, err := ExecWhere(query, row)
+				if err != nil {
+					return nil, err
+				}
+				if !isMatch {
+					continue
+				}
+			}
+			rows = append(rows, current)
+		}
+		query.filtered = rows
+		rs, err := ExecSelect(query, rows)
 		if err != nil {
 			return nil, err
 		}
@@ -2207,6 +2231,10 @@ func (query *Query) Exec() (result []any, err error) {
 	}
 	if slice, ok := rs.([]any); ok {
 		return slice, nil
+	}
+	if rs == nil {
+		// FROM dual with a WHERE that drops the one row
+		return nil, nil
 	}
 	return []any{rs}, nil
 }
